@@ -540,7 +540,35 @@ f'{v:{w}%}'
 f'{v:}'
 f'{v!r:}'
 F'{v}' R'\d' rF'{w}\d' Rf'\d{u}'
+FR'\\{v}\\' fR"\n{v}\t" Rf'\x41{v}' RF'\\'
+f'f"{{{v}}}"'
+f"f'{v}'"
+f'rb"{v}" f"'
+f'{v}f"{{w}}"'
+f"{(<NL>    v +<NL>    w)}"
+f'{(<NL>v<NL>)}'
+f"{<NL>v}"
+f'{v<NL>}'
+f'{v:{<NL>w}}'
+g(f"{(<NL>    v)}", f'{<NL>w}')
+f'{v:#{3 != {4:5} and w}x}'
+f'{v:{ {1: 2}[1] }}'
+f'{v:{w}{{}}}'
+f'{ {1: 2}[1] }'
+f'{ {v} }'
+f'{{v}}{ {w} }'
+f'{v!r:#{w}x}'
+f'{v:{w:{u}}}'
+f'{"{"}{v}{"}"}'
+f'{v:{"{"}>4}'
+f'{v[1:2]}{w[::2]:>4}'
+f'{v:a:b}{w::>4}'
+f'{v!s:::}'
+f'{lambda x: 1}'
+f'{(lambda x: 1):>4}'
+f'{x:=^{w}}'
 """.strip().split("\n")
+_FSPECIMENS = [x.replace("<NL>", "\n") for x in _FSPECIMENS]
 
 
 def fstrings(n):
@@ -581,7 +609,7 @@ def fstrings(n):
 _CHARS = ("", "a", "\u00e9", "\u20ac", "\U0001f600", "e\u0301")
 _ESCAPES = ("", "\\n", "\\t", "\\\\", "\\'", '\\"', "\\x41", "\\xe9", "\\u00e9", "\\u20ac", "\\U0001f600", "\\N{AMPERSAND}", "\\101", "\\0", "\\\n", "\\d", "\\a")
 _LIT_FORMS_QUICK = (
-    "f'B{x}'", "f'{x}B'", 'f"B"', "f\'\'\'B{x}B\'\'\'", "F'B{x}'", "rf'B{x}'", 'fr"B"', "f'{x:B}'", "f'{f\"B{y}\"}'", "'B' f'{x}B'", "f'B' 'B'",
+    "f'B{x}'", "f'{x}B'", 'f"B"', "Rf'B{x}'", 'FR"B"', "f\'\'\'B{x}B\'\'\'", "F'B{x}'", "rf'B{x}'", 'fr"B"', "f'{x:B}'", "f'{f\"B{y}\"}'", "'B' f'{x}B'", "f'B' 'B'",
     "'B'", '"B"', "\'\'\'B\'\'\'", "r'B'", "u'B'", "b'B'", "rb'B'", "x = ['B', f'B{y}B']",
 )
 _F_PREFIXES = ("f", "F", "rf", "fr", "Rf", "fR")
